@@ -495,6 +495,45 @@ pub fn run(a: &Args, r: &mut Report) {
             r.class("sockets:loopback-unavailable(socket arms not exercised)");
         }
     }
+    // very long streams delivered in very large pieces: one hook chunk, UDP datagrams up to 60 000 bytes, websocket
+    // messages of 20 000 and 100 000 bytes (a reader whose buffer is smaller than the piece loses its tail)
+    if !a.asan {
+        let rt_io = tokio::runtime::Builder::new_current_thread().enable_all().build().unwrap();
+        for i in 0..a.budget(64, 1_600) {
+            let mut frames = vec![];
+            let mut total = 0;
+            let target = *rng.pick(&[9_000usize, 20_000, 40_000, 70_000, 140_000]);
+            let density = *rng.pick(&[0.0, 0.05]);
+            while total < target {
+                let kind = *rng.pick(&[0x31u8, 0x32, 0x33, 0x33, 0x34]);
+                let f = gen_frame(&mut rng, density, kind);
+                total += f.raw.len();
+                frames.push(f);
+            }
+            let mut raw = vec![];
+            let mut frame_end = vec![];
+            for f in &frames {
+                raw.extend_from_slice(&f.raw);
+                frame_end.push(raw.len());
+            }
+            let expected: Vec<&[u8]> = frames.iter().filter(|f| f.kind != 0x34).map(|f| f.plain.as_slice()).collect();
+            let case = Case { frames: &frames, raw: raw.clone(), expected, frame_end };
+            let coarse = run_reader(&rt, split(&raw, &[]));
+            let got = run_reader(&rt, vec![raw.clone()]);
+            judge(r, &case, &[], &got, coarse.as_ref().ok(), "very-large-read:hook(one chunk)");
+            if i % 2 == 0 {
+                let size = *rng.pick(&[9_000usize, 30_000, 60_000]);
+                if let Some(got) = run_reader_udp(&rt_io, raw.chunks(size).map(|c| c.to_vec()).collect()) {
+                    judge(r, &case, &[], &got, None, "udp-very-large-datagram(real socket arm)");
+                }
+            } else {
+                let size = *rng.pick(&[20_000usize, 100_000]);
+                if let Some(got) = run_reader_ws(&rt_io, raw.chunks(size).map(|c| c.to_vec()).collect()) {
+                    judge(r, &case, &[], &got, coarse.as_ref().ok(), "websocket-very-large-message(real socket arm)");
+                }
+            }
+        }
+    }
     // long streams: more than one 1024-byte read, targeted cuts only
     let nlong = a.budget(320, 32_000);
     for _ in 0..nlong {
@@ -512,6 +551,6 @@ pub fn run(a: &Args, r: &mut Report) {
         exercise(r, &rt, &mut rng, &frames, false, 0);
     }
     if !a.asan {
-        r.extra.insert("mandatory".into(), json!(["one-piece", "single-cut(exhaustive)", "double-cut(exhaustive)", "dribble(1-byte reads)", "cut:between-two-0x1A", "cut:just-after-0x1A", "cut:just-before-0x1A", "cut:at-frame-boundary", "cut-at-escape-pair", "udp-large-datagram(real socket arm)", "websocket-loopback(real socket arm)", "websocket-large-message(real socket arm)", "whole-stream-in-one-read(> 1024 bytes)", "tcp-loopback(real socket arm)"]));
+        r.extra.insert("mandatory".into(), json!(["one-piece", "single-cut(exhaustive)", "double-cut(exhaustive)", "dribble(1-byte reads)", "cut:between-two-0x1A", "cut:just-after-0x1A", "cut:just-before-0x1A", "cut:at-frame-boundary", "cut-at-escape-pair", "udp-large-datagram(real socket arm)", "websocket-loopback(real socket arm)", "websocket-large-message(real socket arm)", "very-large-read:hook(one chunk)", "udp-very-large-datagram(real socket arm)", "websocket-very-large-message(real socket arm)", "whole-stream-in-one-read(> 1024 bytes)", "tcp-loopback(real socket arm)"]));
     }
 }
